@@ -1008,6 +1008,14 @@ Proof.
         rewrite N.eqb_refl in Heq. discriminate Heq. }
       specialize (IH e (S (S k)) body). destruct (rc_loop fuel e (S (S k)) body) as [[o evs] k'].
       cbn [fst] in *. apply IH; lia.
+    + (* TKPci: as the modern MMIO transport *)
+      destruct (gen_nth (e_gens e) k =? gen_nth (e_gens e) (S k)) eqn:Heq; [reflexivity|].
+      assert (Hk : (S (S k) <= length (e_gens e))%nat).
+      { destruct (le_lt_dec (S (S k)) (length (e_gens e))) as [Hle|Hlt]; [exact Hle|]. exfalso.
+        rewrite (gen_nth_last (e_gens e) k), (gen_nth_beyond (e_gens e) (S k)) in Heq by lia.
+        rewrite N.eqb_refl in Heq. discriminate Heq. }
+      specialize (IH e (S (S k)) body). destruct (rc_loop fuel e (S (S k)) body) as [[o evs] k'].
+      cbn [fst] in *. apply IH; lia.
 Qed.
 
 Theorem read_consistent_result : forall e k body, fst (fst (read_consistent e k body)) = fst body.
